@@ -440,8 +440,8 @@ fn fam_space(f: Arc<dyn Family>) -> Box<dyn Space> {
 pub fn spaces(tier: &str) -> Vec<Box<dyn Space>> {
     let thorough = tier == "thorough";
     let mut v: Vec<Box<dyn Space>> = vec![];
-    v.extend(super::c04::streams_with(tier, 3).into_iter().map(|g| g.into_space(judge_calls)));
-    v.extend(super::c05::streams_with(tier, 3).into_iter().map(|g| g.into_space(judge_calls)));
+    v.extend(super::c04::streams_with(tier, if tier == "thorough" { 4 } else { 3 }).into_iter().map(|g| g.into_space(judge_calls)));
+    v.extend(super::c05::streams_with(tier, if tier == "thorough" { 4 } else { 3 }).into_iter().map(|g| g.into_space(judge_calls)));
     // V5/V7: C03's buffer spaces
     v.extend(super::c03::buffers(tier).into_iter().filter(|g| thorough || !(g.name.contains("all-counts-over") || g.name.contains("every-prefix-of-1") || g.name.contains("materialised"))).map(|g| g.into_space(|b| judge_calls(&[b.to_vec()]))));
     // many cached templates: N distinct ids defined, then data for EVERY id; two parsers must serialise identically
